@@ -108,6 +108,11 @@ def templates(cfg):
     T("pos.slice_alias_window", lambda p, t: t >> p.arrange(t.a.nulls_last(), t.b.nulls_last()) >> p.slice_head(2) >> p.alias("z") >> p.mutate(y=p.C.b.sum(), r=p.row_number(arrange=[p.C.b.nulls_last(), p.C.a.nulls_last()])))
     T("pos.slice_then_nested_window", lambda p, t: t >> p.arrange(t.a.nulls_last(), t.b.nulls_last(), t.g.nulls_last()) >> p.slice_head(2) >> p.alias("z") >> p.mutate(y=p.C.b - p.C.b.max(partition_by=p.C.g), r=p.row_number(arrange=[p.C.a.nulls_last(), p.C.b.nulls_last(), p.C.g.nulls_last()]) * 2))
     T("pos.slice_then_nested_agg_window", lambda p, t: t >> p.arrange(t.a.nulls_last(), t.b.nulls_last(), t.g.nulls_last()) >> p.slice_head(2) >> p.alias("z") >> p.mutate(y=p.when(p.C.b.sum() > 0).then(p.C.b.count()).otherwise(0)))
+    # a window / aggregate function in the CONDITION of a case expression makes the column a window column (F59)
+    T("pos.window_in_case_condition_then_filter", lambda p, t: t >> p.mutate(y=p.when(rn(p, t) > 1).then(t.b).otherwise(0)) >> p.filter(t.g > 0))
+    T("pos.window_in_case_condition_alias_filter", lambda p, t: t >> p.mutate(y=p.when(rn(p, t) > 1).then(t.b).otherwise(0)) >> p.alias("z") >> p.filter(p.C.g > 0))
+    T("pos.agg_in_case_condition_then_filter", lambda p, t: t >> p.mutate(y=p.when(t.b.max() > t.b).then(1).otherwise(0)) >> p.filter(t.g > 0))
+    T("pos.agg_in_case_condition_summarize", lambda p, t: t >> p.group_by(t.g) >> p.summarize(y=p.when(t.b.max() > 1).then(1).otherwise(0)) >> p.alias("z") >> p.filter(p.C.y > 0))
     T("pos.slice_then_window", lambda p, t: t >> p.arrange(t.a.nulls_last(), t.b.nulls_last()) >> p.slice_head(2) >> p.mutate(y=t.b.sum()))
     T("pos.window_then_slice", lambda p, t: t >> p.mutate(y=t.b.sum(partition_by=t.g)) >> p.arrange(t.a.nulls_last(), t.b.nulls_last()) >> p.slice_head(2))
     T("pos.window_select_rename", lambda p, t: t >> p.mutate(y=rn(p, t)) >> p.select(p.C.y, t.a) >> p.rename({"y": "a", "a": "y"}))
